@@ -787,6 +787,14 @@ func (en *Env) evalOverlayCall(fobj *types.Func, decl *ast.FuncDecl, n *ast.Call
 		_, _, _, md := x.mapComps(en.heap, mt.Underlying().(*types.Map), mt)
 		mref := en.evalT(n.Args[0])
 		return TV(And(Not(Eq(mref, IntLit(0, SInt))), Select(Select(md, mref), en.evalT(n.Args[1]))))
+	case "mapkept":
+		// the map m has exactly the entries it had in the old state (quantifier-free row equality)
+		mt := en.typeOf(n.Args[0])
+		mu := mt.Underlying().(*types.Map)
+		_, mvNow, _, mdNow := x.mapComps(en.heap, mu, mt)
+		_, mvOld, _, mdOld := x.mapComps(en.old, mu, mt)
+		mref := en.evalT(n.Args[0])
+		return TV(And(Eq(Select(mvNow, mref), Select(mvOld, mref)), Eq(Select(mdNow, mref), Select(mdOld, mref))))
 	case "mapof":
 		return en.eval(n.Args[0])
 	case "fnid":
